@@ -7,7 +7,10 @@ import sys
 from . import terms
 from .realise import Realised, Unrepresentable
 
-sys.path.insert(0, "/repo/src")
+import os  # noqa: E402
+
+CATTRS_SRC = os.environ.get("CATTRS_SRC", "/repo/src")  # a scratch copy when self-testing with mutants
+sys.path.insert(0, CATTRS_SRC)
 
 import cattrs  # noqa: E402
 from cattrs import BaseConverter, Converter, UnstructureStrategy  # noqa: E402
@@ -19,7 +22,7 @@ from cattrs.errors import (  # noqa: E402
     IterableValidationNote,
 )
 
-assert cattrs.__file__.startswith("/repo/src"), cattrs.__file__
+assert cattrs.__file__.startswith(CATTRS_SRC), cattrs.__file__
 
 ALL_CFGS = [
     {"gen": g, "tuple": t, "detailed": d, "forbid": False}
